@@ -329,6 +329,47 @@ func concBody(x *Exec, raw json.RawMessage) {
 	if has(p.Oracles, "lin") {
 		checkLinearizable(x, r, p, setupRecs, recs, nAtomicSetup)
 	}
+	if has(p.Oracles, "refresh-results") {
+		// every explicit Refresh delivers exactly one result, and it is the outcome of a load of that key
+		for _, rc := range r.refreshChans {
+			k := atoi(opFields(rc.op)[1])
+			select {
+			case got := <-rc.ch:
+				x.Count("refresh-results")
+				explained := false
+				for _, lc := range r.Loads {
+					if !containsKey(lc.Keys, k) {
+						continue
+					}
+					v, supplied := lc.Out[k]
+					switch {
+					case got.Err == nil && lc.Err == "" && supplied && got.Value == v:
+						explained = true
+					case got.Err != nil && errName(got.Err) == "notfound" && (lc.Err == "notfound" || lc.Err == "" && !supplied):
+						explained = true
+					case got.Err != nil && errName(got.Err) == "loaderr" && lc.Err == "loaderr":
+						explained = true
+					case got.Err != nil && lc.Err == "panic":
+						explained = true
+					}
+				}
+				if !explained {
+					x.Fail("refresh-result-wrong", "Refresh@"+p.Label, "%q delivered {key %d, value %d, err %v}, which is not the outcome of any load of that key", rc.op, got.Key, got.Value, got.Err)
+				}
+				select {
+				case <-rc.ch:
+					x.Fail("refresh-channel", "Refresh@"+p.Label, "%q delivered a second result", rc.op)
+				default:
+				}
+			default:
+				x.Fail("refresh-channel", "Refresh@"+p.Label, "%q delivered no result although every goroutine finished", rc.op)
+			}
+		}
+		r.refreshChans = nil
+	}
+	if has(p.Oracles, "iter") {
+		checkIteration(x, r, p, setupRecs, recs)
+	}
 	if has(p.Oracles, "stats") {
 		checkStatsConc(x, r, p, recs)
 	}
